@@ -77,8 +77,26 @@ def compile_obj(src, extra=()):
 
 
 def expand(patterns):
+    """-> list of (file, extra IR flags, extra native flags); a pattern may be a tuple (pattern, ir_flags, native_flags)"""
     out = []
     for p in patterns:
+        irf, natf = (), ()
+        if isinstance(p, tuple):
+            p, irf, natf = p[0], tuple(p[1]), tuple(p[2]) if len(p) > 2 else ()
+        got = _expand1(p)
+        out += [(f, irf, natf) for f in got]
+    seen = set()
+    res = []
+    for f in out:
+        if f[0] not in seen:
+            seen.add(f[0])
+            res.append(f)
+    return res
+
+
+def _expand1(p):
+    out = []
+    if True:
         if p.startswith('repo:'):
             g = sorted(glob.glob(os.path.join(REPO, p[5:]), recursive=True))
             if not g:
@@ -86,13 +104,7 @@ def expand(patterns):
             out += g
         else:
             out.append(os.path.join(VERIF, p))
-    seen = set()
-    res = []
-    for f in out:
-        if f not in seen:
-            seen.add(f)
-            res.append(f)
-    return res
+    return out
 
 
 CORE = ['repo:src/PolarGrid/*.cpp', 'repo:src/Level/*.cpp', 'repo:src/Stencil/*.cpp', 'repo:src/Interpolation/*.cpp',
@@ -105,9 +117,10 @@ GEOM = ['repo:src/InputFunctions/DomainGeometry/*.cpp', 'repo:src/InputFunctions
 
 def build_ir(sources, extra=(), jobs=16):
     """returns path of the linked module"""
-    files = expand(sources)
+    files3 = expand(sources)
+    files = [f for f, a, b in files3]
     with ThreadPoolExecutor(jobs) as ex:
-        lls = list(ex.map(lambda f: compile_ll(f, extra), files))
+        lls = list(ex.map(lambda fab: compile_ll(fab[0], list(extra) + list(fab[1])), files3))
     h = hashlib.sha256(' '.join(lls).encode()).hexdigest()[:24]
     out = os.path.join(CACHE, 'link_' + h + '.ll')
     if not os.path.exists(out):
@@ -118,14 +131,14 @@ def build_ir(sources, extra=(), jobs=16):
 
 
 def build_native(sources, extra=(), jobs=16, openmp=False, sanitize=None):
-    files = expand(sources) + [os.path.join(VERIF, 'runtime', 'vrt.cpp')]
+    files3 = expand(sources) + [(os.path.join(VERIF, 'runtime', 'vrt.cpp'), (), ())]
     ex_flags = list(extra)
     if openmp:
         ex_flags.append('-fopenmp')
     if sanitize:
         ex_flags += [f'-fsanitize={sanitize}', '-g']
     with ThreadPoolExecutor(jobs) as ex:
-        objs = list(ex.map(lambda f: compile_obj(f, ex_flags), files))
+        objs = list(ex.map(lambda fab: compile_obj(fab[0], ex_flags + list(fab[2])), files3))
     h = hashlib.sha256(' '.join(objs).encode()).hexdigest()[:24]
     out = os.path.join(CACHE, 'exe_' + h)
     if not os.path.exists(out):
